@@ -53,6 +53,7 @@ type c02Sys struct{}
 type c02Propose struct{ root string }
 type c02Delete struct{ idx uint64 }
 type c02Advance struct{ d time.Duration }
+type c02Restart struct{}
 type c02Finalize struct {
 	w     int
 	idx   uint64
@@ -67,7 +68,23 @@ func (c02Sys) Root() *c02State {
 	if !res.OK() {
 		panic(res.Err)
 	}
-	return &c02State{ctx: w.Ctx, w: w, fx: newC02Fixture()}
+	// bridge 2 has a life of its own: an output, final by now, and one paid withdrawal
+	other := world.Addr("challenger2").String() // an account the model of bridge 1 does not watch
+	t2 := mkTree("c02-b2", []wd{{Bridge: 2, Seq: 1, From: "l2user", To: other, Denom: "uxx", Amount: 1}}, 0)
+	ctx := w.Ctx
+	for _, m := range []sdk.Msg{
+		ophosttypes.NewMsgInitiateTokenDeposit(world.Addr("alice").String(), 2, "l2addr", world.Coin("uxx", 5), nil),
+		ophosttypes.NewMsgProposeOutput(world.Addr("proposer").String(), 2, 1, 7, t2.OutputRoot[:]),
+	} {
+		if res := w.Deliver(ctx, m); !res.OK() {
+			panic(res.Err)
+		}
+	}
+	ctx = world.Advance(ctx, c02Period)
+	if res := w.Deliver(ctx, claimMsg(t2.Ws[0], t2.Tree.Proof(0), 1, "bob", t2.Version, t2.StorageRoot[:], t2.BlockHash)); !res.OK() {
+		panic(res.Err)
+	}
+	return &c02State{ctx: ctx, w: w, fx: newC02Fixture()}
 }
 
 func (c02Sys) Digest(s *c02State) [32]byte { return s.w.Digest(s.ctx) }
@@ -82,6 +99,7 @@ func (c02Sys) Letters(s *c02State) []engine.Letter {
 	}
 	ls = append(ls, engine.Letter{Name: "Advance(4s)", Data: c02Advance{4 * time.Second}})
 	ls = append(ls, engine.Letter{Name: "Advance(10s)", Data: c02Advance{c02Period}})
+	ls = append(ls, engine.Letter{Name: "RestartViaGenesis", Data: c02Restart{}})
 	for wi := 0; wi < 3; wi++ {
 		for idx := uint64(1); idx <= 2; idx++ {
 			for _, pr := range []string{"R12", "R123"} {
@@ -103,6 +121,11 @@ func (c02Sys) Step(s *c02State, l engine.Letter) (*c02State, string, *engine.Vio
 	switch d := l.Data.(type) {
 	case c02Advance:
 		c.ctx = world.Advance(ctx, d.d)
+		return c, "ok", nil
+	case c02Restart:
+		if err := s.w.RestartViaGenesis(ctx); err != nil {
+			return c, "error", viol("claim-records-survive-a-restart", "export / validate / import of the module genesis failed: %v", err)
+		}
 		return c, "ok", nil
 	case c02Propose:
 		root := s.fx.bad
